@@ -9,6 +9,7 @@
   may change the live procedure table; where a theorem needs side-effect freedom it says so.
 -/
 import PrologVerif.Proofs.TextContig
+import PrologVerif.Proofs.Files
 namespace PrologVerif.C20
 open PrologVerif PrologVerif.Load
 open PrologVerif.DB (PI)
@@ -267,5 +268,128 @@ example : ∀ it ∈ demoGood, Benign pureCall it := by
   exact fun it hit => benign_of_benignB _ it (this it hit)
 example : contiguous (demoGood.map classify) = true := by decide +kernel
 example : contiguous (demoBad.map classify) = false := by decide +kernel
+
+/-! ## loading FILES: `vm.loaded`, consult/1, ensure_loaded/1 over a changing file system
+
+  `Model/Files.lean`: `ensureLoaded`, `consultAll`, `compileV` … with policy `.code` mirror
+  engine/text.go `VM.ensureLoaded / VM.open / Consult`; policy `.spec` is the specification in which
+  a name is registered only when its load has succeeded.  A history is any list of steps: write
+  or remove a file, `?- consult(Arg).`, Exec of a text — whose texts may load further files, nested,
+  recursively or mutually. -/
+
+section Files
+open PrologVerif.Files
+
+/-- **C20_file_loads_refine_spec**: for ALL histories (any file contents, broken, repaired or
+    changed between any two steps; any nesting of loads; any fuel; any evaluator of ordinary
+    goals) the model of the code — which registers a file before compiling it and unregisters it
+    when the load fails — returns at every step the result of the specification — in which a
+    failed load cannot leave a trace because a name is registered only on success —, ends with the
+    same procedure table, and has registered exactly the files the specification has loaded. -/
+theorem C20_file_loads_refine_spec (ev : Eval) (fuel : Nat) (steps : List Files.Step) :
+    (run .code ev fuel World.empty steps).2 = (run .spec ev fuel World.empty steps).2 ∧
+    (run .code ev fuel World.empty steps).1.vm.procs = (run .spec ev fuel World.empty steps).1.vm.procs ∧
+    ∀ f, f ∈ (run .code ev fuel World.empty steps).1.vm.loaded ↔
+         f ∈ (run .spec ev fuel World.empty steps).1.vm.loaded := by
+  obtain ⟨h1, h2⟩ := run_refines ev fuel World.empty World.empty wrel_empty steps
+  refine ⟨h1, h2.vm.procs, fun f => ?_⟩
+  rw [h2.vm.mem f, h2.idle]
+  simp
+
+/-- **C20_failed_load_leaves_no_trace**: in the model of the code, whenever a load of a file (found
+    under the name `f`) returns an error — whatever the fault and wherever it is, in this file or
+    in one it loads —, `f` is NOT registered afterwards, and every name that was registered before
+    still is. -/
+theorem C20_failed_load_leaves_no_trace (fs : FileSys) (ev : Eval) (fuel : Nat) (vm : VM) (file : Term)
+    (f : String) (items : List Item) (e : LoadErr)
+    (hopen : openFile fs file = .ok (f, items))
+    (herr : (ensureLoaded .code fs ev (fuel + 1) vm file).2 = some e) :
+    f ∉ (ensureLoaded .code fs ev (fuel + 1) vm file).1.loaded ∧
+    ∀ x, x ∈ vm.loaded → x ∈ (ensureLoaded .code fs ev (fuel + 1) vm file).1.loaded := by
+  refine ⟨?_, fun x hx => (mono_all fs ev (fuel + 1)).1 vm file x hx⟩
+  rw [ensureLoaded] at herr ⊢
+  simp only [hopen] at herr ⊢
+  by_cases hin : f ∈ vm.loaded
+  · simp [hin] at herr
+  · simp only [hin, if_false] at herr ⊢
+    generalize compileV .code fs ev fuel { vm with loaded := f :: vm.loaded } items = r at herr ⊢
+    obtain ⟨vm', e'⟩ := r
+    cases e' with
+    | none => simp at herr
+    | some e' => simp
+
+/-- **C20_retry_is_first_load**: a file that is not registered — in particular (previous theorem)
+    one whose last load failed — is loaded like a file never seen before: its CURRENT content, in
+    whatever file system the history has produced by then, is compiled (it is not skipped). -/
+theorem C20_retry_is_first_load (fs : FileSys) (ev : Eval) (fuel : Nat) (vm : VM) (file : Term)
+    (f : String) (items : List Item) (hopen : openFile fs file = .ok (f, items)) (hnot : f ∉ vm.loaded) :
+    ensureLoaded .code fs ev (fuel + 1) vm file =
+      match compileV .code fs ev fuel { vm with loaded := f :: vm.loaded } items with
+      | (vm', some e) => ({ vm' with loaded := vm'.loaded.filter (· ≠ f) }, some e)
+      | (vm', none) => (vm', none) := by
+  rw [ensureLoaded]
+  simp only [hopen, hnot, if_false]
+  generalize compileV .code fs ev fuel { vm with loaded := f :: vm.loaded } items = r
+  obtain ⟨vm', e'⟩ := r
+  cases e' <;> rfl
+
+/-- **C20_ensure_loaded_idempotent**: a load that succeeds leaves the file registered, and
+    loading a registered file (consult/1 or ensure_loaded/1, under any spelling that finds the
+    same file) is a no-op: nothing is read, nothing changes. -/
+theorem C20_ensure_loaded_idempotent (fs : FileSys) (ev : Eval) (fuel : Nat) (vm : VM) (file : Term)
+    (f : String) (items : List Item) (hopen : openFile fs file = .ok (f, items)) :
+    ((ensureLoaded .code fs ev (fuel + 1) vm file).2 = none →
+      f ∈ (ensureLoaded .code fs ev (fuel + 1) vm file).1.loaded) ∧
+    (f ∈ vm.loaded → ensureLoaded .code fs ev (fuel + 1) vm file = (vm, none)) := by
+  constructor
+  · intro hok
+    rw [ensureLoaded] at hok ⊢
+    simp only [hopen] at hok ⊢
+    by_cases hin : f ∈ vm.loaded
+    · simp [hin]
+    · simp only [hin, if_false] at hok ⊢
+      have := (mono_all fs ev fuel).2.2.2.2 { vm with loaded := f :: vm.loaded } items f (by simp)
+      generalize compileV .code fs ev fuel { vm with loaded := f :: vm.loaded } items = r at hok this ⊢
+      obtain ⟨vm', e'⟩ := r
+      cases e' with
+      | none => exact this
+      | some e' => simp at hok
+  · intro hin
+    rw [ensureLoaded]
+    simp [hopen, hin]
+
+/-- **C20_loaded_persists**: over any history, a registered file stays registered (so a
+    successfully loaded file is never read again, whatever happens to it on disk — consult/1 in
+    this engine is load-once) -/
+theorem C20_loaded_persists (ev : Eval) (fuel : Nat) (w : World) (steps : List Files.Step) (f : String)
+    (h : f ∈ w.vm.loaded) : f ∈ (run .code ev fuel w steps).1.vm.loaded := by
+  induction steps generalizing w with
+  | nil => exact h
+  | cons st steps ih =>
+    simp only [run]
+    apply ih
+    cases st with
+    | write n items => exact h
+    | remove n => exact h
+    | consult arg => exact (mono_all w.fs ev fuel).2.1 w.vm (fileNames arg) f h
+    | exec items => exact (mono_all w.fs ev fuel).2.2.2.2 w.vm items f h
+
+/-! non-vacuity: the outside tester's scenario — consult a broken lib, repair it, consult again -/
+
+def libBroken : List Item := [.term (Term.a1 "lib" (.int 1)), .syntaxError, .term (Term.a1 "lib" (.int 3))]
+def libFixed : List Item := [.term (Term.a1 "lib" (.int 1)), .term (Term.a1 "lib" (.int 2))]
+def demoFiles : List Files.Step :=
+  [ .write "lib.pl" libBroken, .consult (.atom "lib"), .consult (.atom "lib"),
+    .write "lib.pl" libFixed, .consult (.atom "lib"), .write "lib.pl" libBroken, .consult (.atom "lib.pl") ]
+
+example : (run .code (fun _ _ => .ok) 50 World.empty demoFiles).2 =
+    [none, some .syntax, some .syntax, none, none, none, none] := by decide +kernel
+example : (run .code (fun _ _ => .ok) 50 World.empty demoFiles).1.vm.loaded = ["lib.pl"] := by decide +kernel
+example : stagedClauses ⟨[], [], []⟩ ⟨"lib", 1⟩ = [] := rfl
+example : ((run .code (fun _ _ => .ok) 50 World.empty demoFiles).1.vm.procs.get ⟨"lib", 1⟩) =
+    some (.user ⟨false, false, false, false, [Term.a1 "lib" (.int 1), Term.a1 "lib" (.int 2)]⟩) := by
+  decide +kernel
+
+end Files
 
 end PrologVerif.C20
